@@ -855,7 +855,14 @@ class HttpResponseParser(HttpParser[RawResponseMessage]):
             if version_o <= HttpVersion10:
                 close = True
             # https://www.rfc-editor.org/rfc/rfc9112.html#name-message-body-length
-            elif 100 <= status_i < 200 or status_i in {204, 304}:
+            elif (
+                100 <= status_i < 200
+                or status_i in {204, 304}
+                or self.method in EMPTY_BODY_METHODS
+                or not self.response_with_body
+            ):
+                # No body by definition (incl. any response to HEAD): the end of
+                # the message does not depend on closing the connection.
                 close = False
             elif hdrs.CONTENT_LENGTH in headers or hdrs.TRANSFER_ENCODING in headers:
                 close = False
